@@ -1,7 +1,7 @@
 (* C05 — transfer of the per-mount results to the physical-device reading used by the
    specification (model/C05_run.v), for layouts in which no device is mounted twice. *)
 From Coq Require Import List Arith Bool Lia Permutation NArith.
-From AV Require Import model.C05_model model.C05_run proofs.C05_proofs proofs.C05_safety proofs.C05_repl.
+From AV Require Import model.C05_model model.C05_old_model model.C05_run proofs.C05_proofs proofs.C05_safety proofs.C05_repl.
 Import ListNotations.
 
 Lemma pd_eqb_eq a b : pd_eqb a b = true <-> a = b.
@@ -194,7 +194,7 @@ Section Balance.
 Variables (dflt : nat) (rank devrank : nat -> nat) (minMtime : nat).
 Variables (raw : list mnt) (sro : list nat) (repl desired : list (nat * nat)).
 Let eff := setup raw sro.
-Let out := balance dflt rank devrank minMtime raw sro repl desired.
+Let out := balance_old dflt rank devrank minMtime raw sro repl desired.
 
 Theorem under_partial k :
   unshared eff -> In k (classes_of dflt eff) -> 0 < lookup desired k ->
@@ -202,11 +202,11 @@ Theorem under_partial k :
   trashes (fst out) = [].
 Proof using Type.
   intros U Hk Hd Hs. rewrite phys_held in Hs by exact U.
-  assert (F : under_flag dflt rank devrank eff repl (classes_of dflt eff) desired = true)
+  assert (F : under_flag_old dflt rank devrank eff repl (classes_of dflt eff) desired = true)
     by (eapply flag_set_when_short; eauto).
   destruct (trashes (fst out)) as [|[m t] r] eqn:E; [reflexivity|exfalso].
   assert (In (m, t) (trashes (fst out))) by (rewrite E; left; reflexivity).
-  apply in_trashes in H. unfold out, balance in H. fold eff in H.
+  apply in_trashes in H. unfold out, balance_old in H. fold eff in H.
   eapply block_no_trash_when_flag; eauto.
 Qed.
 
@@ -217,7 +217,7 @@ Theorem pres_partial k :
   phys_repl dflt k eff (after eff repl (trashes (fst out))).
 Proof using Type.
   intros U Hs Hk Hd. rewrite phys_held, phys_after by exact U.
-  rewrite <- trash_mids_trashes. unfold out, balance. fold eff.
+  rewrite <- trash_mids_trashes. unfold out, balance_old. fold eff.
   apply block_keeps_class; auto. destruct U as [U1 U2]. split; [exact U1|]. split; [exact U2|exact Hs].
 Qed.
 End Balance.
